@@ -12,6 +12,10 @@ func (c *Conversation) generateNewDHKeyPair() error {
 func (c *Conversation) akeHasFinished() error {
 	c.keys.wipe()
 	c.keys = c.ake.keys
+	if c.ake.theirKey != nil {
+		c.ssid = c.ake.ssid
+		c.theirKey = c.ake.theirKey
+	}
 	c.ake.wipe(false)
 
 	previousMsgState := c.msgState
